@@ -2,7 +2,8 @@
    in coq/C07/, followed by Print Assumptions.  Orientations are constrained only by being unit
    quaternions, trigonometric values only by c^2+s^2 = 1 (half-angle pairs). *)
 From Coq Require Import Reals List QArith.
-From Scenic Require Import C07.Carrier C07.Vec3 C07.Quat C07.Geometry C07.QuatProofs C07.GeometryProofs C07.Cases.
+From Scenic Require Import C07.Carrier C07.Vec3 C07.Quat C07.Geometry C07.QuatProofs C07.GeometryProofs C07.Cases
+  C07.FieldProofs C07.CarrierProofs.
 Import ListNotations.
 Open Scope R_scope.
 
@@ -153,6 +154,125 @@ Theorem C07_apparent_heading_spec : forall (pos b : Rvec) (h al : Rang) (rho : R
   appheading_dot Ro ah pos (from_heading Ro h) b = rho.
 Proof. exact apparent_heading_spec. Qed.
 
+(* ==== round 2: vector fields, following, on, the executable gap fold, Euler round trip, Qo = Q ==== *)
+(* facing <field>: whatever the (unit) parent orientation, the global orientation is the field's value at the
+   object's position *)
+Theorem C07_facing_field_global : forall (parent : Rquat) (F : Rvec -> Rquat) (pos : Rvec), unitq parent ->
+  facing_field_orientation Ro parent F pos = F pos.
+Proof. exact facing_field_global. Qed.
+
+(* ... and the operand order in parent^-1 * F[pos] matters (F[pos] * parent^-1 gives another rotation) *)
+Theorem C07_facing_field_order_matters :
+  exists (parent f : Rquat), unitq parent /\ unitq f /\
+    qmul Ro parent (qmul Ro f (qconj Ro parent)) <> f /\
+    qmul Ro parent (qmul Ro f (qconj Ro parent)) <> qneg Ro f.
+Proof. exact facing_field_order_matters. Qed.
+
+Theorem C07_relative_to_field : forall (X Y : Rvec -> Rquat) (pos v : Rvec),
+  rotate Ro (relative_to_field Ro X Y pos) v = rotate Ro (Y pos) (rotate Ro (X pos) v).
+Proof. exact relative_to_field_rotate. Qed.
+
+Theorem C07_offset_along_field_frame : forall (x : Rvec) (F : Rvec -> Rquat) (v : Rvec), unitq (F x) ->
+  to_local Ro x (F x) (offset_along_field Ro x F v) = v.
+Proof. exact offset_along_field_frame. Qed.
+
+(* apparently facing H from P (as repaired, F21): heading H with respect to the line of sight, in the parent frame *)
+Theorem C07_apparently_facing_spec : forall (parent : Rquat) (pos p : Rvec) (h al : Rang) (rho : R),
+  unita h -> unita al ->
+  xy (sight_local Ro parent pos p true) = (rho * - asin Ro al, rho * acos Ro al) ->
+  let yaw := aadd Ro al h in
+  turn_res Ro h (xy (sight_local Ro parent pos p true)) (- asin Ro yaw, acos Ro yaw) = 0 /\
+  turn_dot Ro h (xy (sight_local Ro parent pos p true)) (- asin Ro yaw, acos Ro yaw) = rho /\
+  forward Ro (orientation_of Ro parent yaw (a0 Ro) (a0 Ro)) = rotate Ro parent (- asin Ro yaw, acos Ro yaw, 0).
+Proof. exact apparently_facing_spec. Qed.
+
+(* following: the recursive definition is the executable fold over the field's values at the visited points;
+   every step has length |step| along the field's forward axis there; in a constant field n steps of D/n are a
+   straight move by D; in any (unit) field the end point is at most n*|step| = |D| away *)
+Theorem C07_follow_executable : forall (F : Rvec -> Rquat) n step pos,
+  follow Ro F n step pos = follow_rec Ro (map F (visited Ro F n step pos)) step pos /\
+  length (visited Ro F n step pos) = n.
+Proof. exact (fun F n step pos => conj (follow_eq_rec F n step pos) (visited_length F n step pos)). Qed.
+
+Theorem C07_follow_step : forall (q : Rquat) (step : R) (pos : Rvec),
+  vsub Ro (follow_step Ro q step pos) pos = vscale Ro step (forward Ro q) /\
+  (unitq q -> vnorm2 Ro (vsub Ro (follow_step Ro q step pos) pos) = step * step).
+Proof. exact (fun q step pos => conj (follow_step_forward q step pos) (follow_step_length q step pos)). Qed.
+
+Theorem C07_follow_const : forall (F : Rvec -> Rquat) (q : Rquat) n D pos, (forall p, F p = q) -> (0 < n)%nat ->
+  follow Ro F n (D / INR n) pos = vadd Ro pos (vscale Ro D (forward Ro q)).
+Proof. exact follow_const_distance. Qed.
+
+Theorem C07_follow_distance_bound : forall (F : Rvec -> Rquat) n step pos, (forall p, unitq (F p)) ->
+  vnorm2 Ro (vsub Ro (follow Ro F n step pos) pos) <= (INR n * Rabs step) * (INR n * Rabs step).
+Proof. exact follow_distance_bound. Qed.
+
+(* on: the new centre, in the frame of the surface point and the surface orientation, is the contact offset
+   (0,0,ct/2) - baseOffset, and that orientation is inherited; with the default baseOffset every point of the new
+   box is ct/2 + (1+s.z) height/2 above the surface point along the normal, at least ct/2 for the corners *)
+Theorem C07_on_frame : forall (p : Rvec) (q : Rquat) (ct : R) (base : Rvec), unitq q ->
+  to_local Ro p q (fst (on_pos Ro p q ct base)) = on_offset Ro ct base /\ snd (on_pos Ro p q ct base) = q.
+Proof. exact on_frame. Qed.
+
+Theorem C07_on_gap : forall (p : Rvec) (q : Rquat) (ct : R) (dims s : Rvec), unitq q ->
+  vz (to_local Ro p q (box_point Ro (fst (on_pos Ro p q ct (default_base Ro dims))) q dims s))
+  = ct / 2 + (1 + vz s) * (vz dims / 2).
+Proof. exact on_gap. Qed.
+
+Theorem C07_on_gap_corners : forall (p : Rvec) (q : Rquat) (ct : R) (dims s : Rvec), unitq q -> 0 <= vz dims ->
+  In s (corner_signs Ro) ->
+  ct / 2 <= vz (to_local Ro p q (box_point Ro (fst (on_pos Ro p q ct (default_base Ro dims))) q dims s)).
+Proof. exact on_gap_corners. Qed.
+
+(* the executable min/max fold [gap_along] (what the correspondence runs, here at both carriers): its value is
+   along(p) - along(q) for a new corner p minimal and a corner q of X maximal among all corners *)
+Theorem C07_gap_along_fold_R : forall xpos xq d (cx cn : list Rvec), cx <> [] -> cn <> [] ->
+  exists p q, In p cn /\ In q cx /\
+    gap_along Ro xpos xq d cx cn = along Ro xpos xq d p - along Ro xpos xq d q /\
+    (forall p', In p' cn -> along Ro xpos xq d p <= along Ro xpos xq d p') /\
+    (forall q', In q' cx -> along Ro xpos xq d q' <= along Ro xpos xq d q).
+Proof. exact gap_along_fold_R. Qed.
+
+Theorem C07_gap_along_fold_Q : forall xpos xq d (cx cn : list (@vec Q)), cx <> [] -> cn <> [] ->
+  exists p q, In p cn /\ In q cx /\
+    gap_along Qo xpos xq d cx cn = sub Qo (along Qo xpos xq d p) (along Qo xpos xq d q) /\
+    (forall p', In p' cn -> (along Qo xpos xq d p <= along Qo xpos xq d p')%Q) /\
+    (forall q', In q' cx -> (along Qo xpos xq d q' <= along Qo xpos xq d q)%Q).
+Proof. exact gap_along_fold_Q. Qed.
+
+(* ... hence for the aligned placement the fold over the two lists of eight corners IS the documented gap *)
+Theorem C07_gap_along_directional : forall d (xpos : Rvec) (xq : Rquat) (xdims sdims : Rvec) ct b,
+  unitq xq -> 0 <= dir_dim d sdims -> 0 <= dir_dim d xdims ->
+  let newpos := fst (directional_obj Ro d xpos xq xdims sdims ct b) in
+  gap_along Ro xpos xq d (corners Ro xpos xq xdims) (corners Ro newpos xq sdims) = dir_gap_value Ro d b ct.
+Proof. exact gap_along_directional. Qed.
+
+(* Euler angles (intrinsic ZXY): the defining equations that as_euler inverts, and the round trip away from
+   gimbal lock: the rotation determines (cos, sin) of yaw, pitch and roll when cos pitch > 0 *)
+Theorem C07_euler_matrix : forall y p r : Rang, unita y -> unita p -> unita r ->
+  let q := from_euler Ro y p r in
+  rotate Ro q (ey Ro) = (- asin Ro y * acos Ro p, acos Ro y * acos Ro p, asin Ro p) /\
+  vz (rotate Ro q (ex Ro)) = - acos Ro p * asin Ro r /\
+  vz (rotate Ro q (ez Ro)) = acos Ro p * acos Ro r.
+Proof. exact euler_matrix. Qed.
+
+Theorem C07_euler_roundtrip : forall y p r y' p' r' : Rang,
+  unita y -> unita p -> unita r -> unita y' -> unita p' -> unita r' ->
+  0 < acos Ro p -> 0 < acos Ro p' ->
+  (forall v, rotate Ro (from_euler Ro y p r) v = rotate Ro (from_euler Ro y' p' r') v) ->
+  (acos Ro y = acos Ro y' /\ asin Ro y = asin Ro y') /\
+  (acos Ro p = acos Ro p' /\ asin Ro p = asin Ro p') /\
+  (acos Ro r = acos Ro r' /\ asin Ro r = asin Ro r').
+Proof. exact euler_roundtrip. Qed.
+
+(* the running dictionary Qo is Q's own arithmetic, for all rationals (axiom-free) *)
+Theorem C07_Qo_is_Q : forall a b : Q,
+  (add Qo a b == a + b)%Q /\ (mul Qo a b == a * b)%Q /\ (sub Qo a b == a - b)%Q /\ (div Qo a b == a / b)%Q /\
+  (opp Qo a == - a)%Q /\ (zero Qo == 0)%Q /\ (one Qo == 1)%Q /\ (leb Qo a b = true <-> (a <= b)%Q).
+Proof. exact Qo_is_Q. Qed.
+Print Assumptions C07_Qo_is_Q.
+Print Assumptions C07_gap_along_fold_Q.
+
 (* one Print Assumptions over the tuple of all property theorems (each traversal of the Reals library is
    slow; the union of axioms is what the evidence records) *)
 Definition C07_all := (C07_quat_assoc,
@@ -181,7 +301,11 @@ Definition C07_all := (C07_quat_assoc,
   C07_distance_rigid,
   C07_relative_heading_antisym,
   C07_angle_of_heading,
-  C07_apparent_heading_spec).
+  C07_apparent_heading_spec,
+  C07_facing_field_global, C07_facing_field_order_matters, C07_apparently_facing_spec, C07_relative_to_field, C07_offset_along_field_frame,
+  C07_follow_executable, C07_follow_step, C07_follow_const, C07_follow_distance_bound,
+  C07_on_frame, C07_on_gap, C07_on_gap_corners, C07_gap_along_fold_R, C07_gap_along_directional,
+  C07_euler_matrix, C07_euler_roundtrip).
 Print Assumptions C07_all.
 
 (* ---- non-vacuity: the hypotheses are satisfiable (a 3-4-5 unit pair, a non-trivial unit quaternion) *)
@@ -190,6 +314,15 @@ Example C07_hyps_satisfiable :
   (exists (p q : Rvec) (th ph : Rang) (rho : R), unita th /\ unita ph /\ rho <> 0 /\
      vsub Ro p q = vscale Ro rho (sph_dir Ro th ph)).
 Proof. exact hyps_satisfiable. Qed.
+
+(* round 2: the round trip's hypotheses (unit pairs, cos pitch > 0, a genuinely tilted pitch) are satisfiable;
+   a constant unit field exists (follow_const / follow_distance_bound) *)
+Example C07_round2_hyps_satisfiable :
+  (exists y p r : Rang, unita y /\ unita p /\ unita r /\ 0 < acos Ro p /\ asin Ro p <> 0) /\
+  (exists (F : Rvec -> Rquat) (q : Rquat), (forall p, F p = q) /\ (forall p, unitq (F p))).
+Proof. split; [exact euler_roundtrip_hyps|].
+  exists (fun _ => (1/2, 1/2, 1/2, 1/2)), (1/2, 1/2, 1/2, 1/2). split; [reflexivity|].
+  intro p. exact (proj1 (proj2 hyps_satisfiable)). Qed.
 
 (* the same generic definitions at the carrier Q (what the correspondence check executes): the box of
    size 2x4x6 centred at (1,2,3) with the identity orientation has its `top front left` corner at (0,4,6) *)
